@@ -262,11 +262,6 @@ func (ex *Exec) frameChecks(st *State, env *Env) {
 		oldT, ok := ex.old.heap[comp]
 		if !ok {
 			oldT = fmt.Sprintf("|H_%s_e0|", comp)
-			if e, ok2 := st.compEpoch[comp]; ok2 && e > 0 {
-				// component was havocked by a contracted callee that modifies it
-				ex.queries = append(ex.queries, &Query{Name: fmt.Sprintf("%s#frame[heap %s]", ex.name, comp), Path: ex.paths, Assumes: append([]string(nil), st.pc...), Goal: "false", Property: ex.props, Pos: "a callee modifies heap " + comp + " which is not in this function's modifies"})
-				continue
-			}
 			ex.declare(fmt.Sprintf("(declare-const %s (Array Ref %s))", oldT, ex.heapComps[comp].Name))
 		}
 		if cur == oldT {
